@@ -95,7 +95,7 @@ def finish(prop, tier, seed, t0, mc, nbeh, behaviours_path, val, rule, nontrivia
 
 # =========================================================================== obs layer (crate eyeball)
 OBS_MC = dict(NV=3, OwnerIds={1, 2}, SubIds={1, 2}, WeakIds={1}, GuardIds={1, 2}, Kinds={"unique", "shared"})
-OBS_TRACE = dict(NV=3, OwnerIds={1, 2, 3, 4}, SubIds={1, 2, 3, 4, 5, 6}, WeakIds={1, 2, 3}, GuardIds={1, 2, 3},
+OBS_TRACE = dict(NV=3, OwnerIds={1, 2, 3, 4}, SubIds={1, 2, 3, 4, 5, 6, 7, 8, 9}, WeakIds={1, 2, 3}, GuardIds={1, 2, 3},
                  Kinds={"unique", "shared"})
 OBS_INVS = ["TypeOK", "ReadyIffUnseen", "ObservedLeVer", "NoLostWake", "ArmedRegisteredOrWoken",
             "ClosedIffNoOwner", "UniqueHasOneOwner", "LockExclusion"]
@@ -146,6 +146,25 @@ def obs_sig(v):
     d = v["detail"]
     return dict(layer="obs", clause=v["clause"], op=d.get("op"), kind=d.get("kind"),
                 expected=(d.get("expected") or {}).get("t"), got=(d.get("got") or {}).get("t"))
+
+
+def spread(beh, lo, hi):
+    """Spread the (expensive to validate) behaviours in lines [lo, hi) evenly over the file, so that the parallel validator
+    chunks get equal work.  Done before the harness runs: run ids are line numbers."""
+    lines = open(beh).read().splitlines()
+    heavy, rest = lines[lo:hi], lines[:lo] + lines[hi:]
+    if not heavy or not rest:
+        return
+    step = len(rest) / float(len(heavy))
+    out, j = [], 0
+    for i, h in enumerate(heavy):
+        k = int(round((i + 1) * step))
+        out.extend(rest[j:k])
+        out.append(h)
+        j = k
+    out.extend(rest[j:])
+    with open(beh, "w") as f:
+        f.write("\n".join(out) + "\n")
 
 
 def driver_policy(beh, mod):
@@ -250,6 +269,15 @@ def obs_pipeline(prop, tier, seed, work, t0, flavor="sync"):
                           timeout=1500)
     n += k
     log("gen sim: %d" % k)
+    if prop in ("C01", "C02"):
+        # many subscribers pending at once (a waker list may change representation beyond a few entries): walks over the wake core
+        c = os.path.join(work, "GenMany.cfg")
+        write_cfg(c, spec="SpecWake", constants=dict(NV=2, OwnerIds={1}, SubIds=set(range(1, 10)), WeakIds={1}, GuardIds={1},
+                                                     Kinds={"unique", "shared"}, Depth=45),
+                  constraints=["BoundTree"], invariants=["PrintAtDepth"])
+        k, _ = gen_behaviours("GenObs", c, work, beh, "sim", num=40 if quick else 2000, depth=46, seed=seed + 3, tag="many", timeout=1500)
+        n += k
+        log("gen many-subscriber walks: %d" % k)
     n = waker_policy(beh, wake_range if prop == "C02" else None)
     # ---- 3. run on the real code
     trace = os.path.join(work, "trace.ndjson")
@@ -557,6 +585,26 @@ def vec_pipeline(prop, tier, seed, work, t0):
                           timeout=3000)
     n += k
     log("gen sim: %d" % k)
+    # long vectors (imbl's representation changes at 64 items): walks from 66 / 130 initial items with appends of 40 / 70
+    c = os.path.join(work, "GenBig.cfg")
+    write_cfg(c, spec="SpecBig", constants=dict(MaxDecs=2, SubIds={1, 2}, Caps=simcaps, MaxLen=400, LagThenClosedLosesState=False,
+                                                Depth=25, InitLens={66, 130}, PreSubs={2}),
+              constraints=["BoundTree"], invariants=["PrintAtDepth"])
+    k, _ = gen_behaviours("GenVec", c, work, beh, "sim", num=40 if quick else 1500, depth=26, seed=seed + 7, tag="big", timeout=3000)
+    spread(beh, n, n + k)
+    n += k
+    log("gen big: %d" % k)
+    # long transactions (>= 17 recorded diffs) and long backlogs (45 unpolled operations, capacities that do / do not lag)
+    for j, (spec_, consts_, depth_, num_) in enumerate([
+            ("SpecTxnLong", dict(Caps={16}, InitLens={0, 2}, PreSubs={2}, MaxLen=40), 32, 25 if quick else 1500),
+            ("SpecBacklog", dict(Caps={2, 16, 64}, InitLens={1}, PreSubs={2}, MaxLen=60), 52, 25 if quick else 1500)]):
+        c = os.path.join(work, "GenLong%d.cfg" % j)
+        write_cfg(c, spec=spec_, constants=dict(dict(MaxDecs=2, SubIds={1, 2}, LagThenClosedLosesState=False, Depth=depth_), **consts_),
+                  constraints=["BoundTree"], invariants=["PrintAtDepth"])
+        k, _ = gen_behaviours("GenVec", c, work, beh, "sim", num=num_, depth=depth_ + 1, seed=seed + 11 + j, tag="long%d" % j, timeout=3000)
+        spread(beh, n, n + k)
+        n += k
+        log("gen %s: %d" % (spec_, k))
     driver_policy(beh, 8)
     # ---- 3. real code
     trace = os.path.join(work, "trace.ndjson")
@@ -604,8 +652,14 @@ def ad_plans(prop, quick):
     both = {"plain", "batched"}
     sim_n = lambda q, t: max(q // 3, 50) if quick else t
     dyn2 = dict(Modes={"dyninit"}, Params={1, 2}, InitLens={3}, MaxLen=5)
+    def big(kinds, **over):
+        # long vectors (imbl's representation changes at 64 items): walks from 66 / 130 initial items, appends of 40 / 70,
+        # mutators at representative indices, limits around the boundary
+        return ("GSpecBig", "sim", ad_base(**dict(dict(StageKinds=kinds, NStages={1}, Depth=25, Caps={16, 256}, InitLens={66, 130},
+                                                       Params={0, 1, 3, 64, 65, 100}, MaxLen=400, PipeFlavs=both), **over)),
+                12 if quick else 400)
     if prop == "C09":
-        return [("GSpec", "edge", ad_base(StageKinds={k}, Depth=D, PipeFlavs={"plain"}, InitLens={2},
+        return [big(LIMIT_KINDS)] + [("GSpec", "edge", ad_base(StageKinds={k}, Depth=D, PipeFlavs={"plain"}, InitLens={2},
                                           Modes={"dyn", "dyninit"},
                                           Params={0, 1, 3}), 0) for k in sorted(LIMIT_KINDS)] + [
             ("GSpecCore", "tree", ad_base(StageKinds={k}, Depth=D, CoreSet="lean", **dyn2), 0) for k in sorted(LIMIT_KINDS)] + [
@@ -616,7 +670,7 @@ def ad_plans(prop, quick):
                                         PipeFlavs=both), sim_n(500, 6000))]
     if prop == "C10":
         K = {"filter", "filter_map"}
-        return [("GSpec", "edge", ad_base(StageKinds=K, Depth=D, InitLens={3}, PipeFlavs=both), 0),
+        return [big(K), ("GSpec", "edge", ad_base(StageKinds=K, Depth=D, InitLens={3}, PipeFlavs=both), 0),
                 ("GSpecCore", "tree", ad_base(StageKinds=K, Depth=D, CoreSet="full", InitLens={3}, MaxLen=5, PipeFlavs={"plain"}), 0),
                 ("GSpec", "edge", ad_base(StageKinds=K, Depth=D if quick else D + 1, Caps={1}, InitLens={2}, MaxLen=3, PipeFlavs=both), 0),
                 ("GSpecTxnSmall", "edge", ad_base(StageKinds=K, Depth=D + 2, InitLens={2}, MaxLen=4, PipeFlavs={"batched"}), 0),
@@ -624,14 +678,14 @@ def ad_plans(prop, quick):
                                             PipeFlavs=both), sim_n(500, 6000))]
     if prop == "C11":
         K = {"sort", "sort_by", "sort_by_key"}
-        return [("GSpec", "edge", ad_base(StageKinds=K, Depth=D, InitLens={3}, MaxLen=4, PipeFlavs={"batched"}), 0),
+        return [big(K), ("GSpec", "edge", ad_base(StageKinds=K, Depth=D, InitLens={3}, MaxLen=4, PipeFlavs={"batched"}), 0),
                 ("GSpecCore", "tree", ad_base(StageKinds=K, Depth=D, CoreSet="full", InitLens={3}, MaxLen=5, PipeFlavs={"plain"}), 0),
                 ("GSpec", "edge", ad_base(StageKinds=K, Depth=D if quick else D + 1, Caps={1}, InitLens={2}, MaxLen=3), 0),
                 ("GSpecTxnSmall", "edge", ad_base(StageKinds=K, Depth=D + 2, InitLens={3}, MaxLen=5), 0),
                 ("GSpecTxn", "sim", ad_base(StageKinds=K, Depth=40, Caps={1, 2, 16}, InitLens={0, 1, 3, 5, 7}, MaxLen=9,
                                             PipeFlavs=both), sim_n(500, 6000))]
     if prop == "C12":
-        return [("GSpecCore", "tree", ad_base(StageKinds=ALL_KINDS, NStages={2}, Depth=3 if quick else 4, InitLens={3}, Modes={"dyn", "static"},
+        return [big(ALL_KINDS, NStages={2}, SelfObs={0, 1}), ("GSpecCore", "tree", ad_base(StageKinds=ALL_KINDS, NStages={2}, Depth=3 if quick else 4, InitLens={3}, Modes={"dyn", "static"},
                                               Params={2}, SelfObs={0, 1}, MaxLen=5, CoreSet="lean"), 0),
                 ("GSpecTxn", "sim", ad_base(StageKinds=ALL_KINDS, NStages={2, 3}, Depth=30, Caps={2, 16}, InitLens={0, 2, 4, 6},
                                             Params={0, 1, 2, 4}, MaxLen=8, SelfObs={0, 1}, PipeFlavs=both),
@@ -857,6 +911,7 @@ def adapters_pipeline(prop, tier, seed, work, t0):
     beh = os.path.join(work, "beh.ndjson")
     n = 0
     gstates = gtrans = 0
+    big_range = None
     for j, (spec, mode, consts, num) in enumerate(ad_plans(prop, quick)):
         c = os.path.join(work, "Gen%d.cfg" % j)
         if mode == "edge":
@@ -873,8 +928,12 @@ def adapters_pipeline(prop, tier, seed, work, t0):
             write_cfg(c, spec=spec, constants=consts, constraints=["BoundTree"], invariants=["PrintAtDepth"])
             k, r = gen_behaviours("GenAdapters", c, work, beh, "sim", num=num, depth=consts["Depth"] + 1, seed=seed + j, tag="g%d" % j,
                                   timeout=3000)
+        if spec == "GSpecBig":
+            big_range = (n, n + k)
         n += k
         log("gen %s %s: %d (%.1fs)" % (spec, mode, k, r["wall"]))
+    if big_range:
+        spread(beh, *big_range)
     driver_policy(beh, 2)
     trace = os.path.join(work, "trace.ndjson")
     hrc = run_harness(["adapters-replay", beh, trace])
@@ -1384,6 +1443,13 @@ def async_pipeline(prop, tier, seed, work, t0):
     k, _ = gen_behaviours("GenObs", c, work, beh, "sim", num=300 if quick else 20000, depth=41, seed=seed, tag="sim", timeout=1500)
     n += k
     log("gen sync-spec sim: %d" % k)
+    c = os.path.join(work, "GenMany.cfg")
+    write_cfg(c, spec="SpecWake", constants=dict(NV=2, OwnerIds={1}, SubIds=set(range(1, 10)), WeakIds={1}, GuardIds={1},
+                                                 Kinds={"unique", "shared"}, Depth=45),
+              constraints=["BoundTree"], invariants=["PrintAtDepth"])
+    k, _ = gen_behaviours("GenObs", c, work, beh, "sim", num=40 if quick else 2000, depth=46, seed=seed + 3, tag="many", timeout=1500)
+    n += k
+    log("gen sync-spec many-subscriber walks: %d" % k)
     # (b) behaviours with calls issued while guards are held (ObsAsync)
     c = os.path.join(work, "GenAEdge.cfg")
     write_cfg(c, spec="ASpec", constants=dict(a_mc, Depth=5 if quick else 6), view="View", constraints=["Bound"], action_constraints=["Edge"])
